@@ -332,8 +332,11 @@ func (d *Datastore) Subscribe(req *sdcpb.SubscribeRequest, stream sdcpb.DataServ
 	// start periodic gets, TODO: optimize using cache RPC
 	wg := new(sync.WaitGroup)
 	wg.Add(len(req.GetSubscription()))
-	errCh := make(chan error, 1)
+	// every subscription goroutine reports at most one error, so none of them can block on reporting it
+	errCh := make(chan error, len(req.GetSubscription()))
 	doneCh := make(chan struct{})
+	// doneCh is closed by the first goroutine that fails, closing it twice panics
+	doneOnce := new(sync.Once)
 	for _, subsc := range req.GetSubscription() {
 		go func(subsc *sdcpb.Subscription) {
 			ticker := time.NewTicker(time.Duration(subsc.GetSampleInterval()))
@@ -350,7 +353,7 @@ func (d *Datastore) Subscribe(req *sdcpb.SubscribeRequest, stream sdcpb.DataServ
 					err := d.doSubscribeOnce(ctx, subsc, stream)
 					if err != nil {
 						errCh <- err
-						close(doneCh)
+						doneOnce.Do(func() { close(doneCh) })
 						return
 					}
 				}
